@@ -69,7 +69,7 @@ def run(prop, tier, replay):
                 i = args.index("-fens")
                 mkfens(int(rp.get("nfens", 3000)), int(rp.get("fenseed", 1)))
                 args[i + 1] = fens
-            vf.run([bins["rec-tuner"]] + args + ["-dir", data, "-out", path], timeout=3000)
+            vf.run_recorder([bins["rec-tuner"]] + args + ["-dir", data, "-out", path], timeout=3000)
             _, mm, _ = tc.validate_trace(work, "TunerTrace", path, timeout=3000, env_extra=None)
             bad = [m for m in mm if m["rule"].startswith((prop + "/", "PANIC/"))]
             for m in bad[:3]:
@@ -86,7 +86,7 @@ def run(prop, tier, replay):
                 args = ["-mode", "perm", "-tier", tier, "-shard", str(i), "-nshards", str(nsh), "-seed", str(vf.seed() * 31 + i)]
 
                 def rec_(path, args=args):
-                    vf.run([bins["rec-tuner"]] + args + ["-out", path], timeout=3000)
+                    vf.run_recorder([bins["rec-tuner"]] + args + ["-out", path], timeout=3000)
                 jobs.append(dict(name="C20-perm-%d" % i, record=rec_, args=args))
             for i in range(2 if tier == "quick" else 8):
                 args = ["-mode", "epoch", "-tier", tier, "-seed", str(vf.seed() * 131 + i)]
@@ -94,7 +94,7 @@ def run(prop, tier, replay):
                 def rec2(path, args=args, i=i):
                     d = os.path.join(data, "e%d" % i)
                     os.makedirs(d, exist_ok=True)
-                    vf.run([bins["rec-tuner"]] + args + ["-dir", d, "-out", path], timeout=3000)
+                    vf.run_recorder([bins["rec-tuner"]] + args + ["-dir", d, "-out", path], timeout=3000)
                 jobs.append(dict(name="C20-epoch-%d" % i, record=rec2, args=args))
             res = tc.run_shards(work, "TunerTrace", jobs, timeout=6000)
             return finish(prop, tier, res, dm, t0, "model_checking",
@@ -106,12 +106,12 @@ def run(prop, tier, replay):
         args = ["-mode", "eval", "-fens", fens, "-n", str(nf)]
 
         def rec3(path, args=args):
-            vf.run([bins["rec-tuner"]] + args + ["-out", path], timeout=3000)
+            vf.run_recorder([bins["rec-tuner"]] + args + ["-out", path], timeout=3000)
         jobs.append(dict(name="C19-eval", record=rec3, args=args))
         args2 = ["-mode", "vec", "-tier", tier, "-seed", str(vf.seed())]
 
         def rec4(path, args=args2):
-            vf.run([bins["rec-tuner"]] + args + ["-out", path], timeout=3000)
+            vf.run_recorder([bins["rec-tuner"]] + args + ["-out", path], timeout=3000)
         jobs.append(dict(name="C19-vec", record=rec4, args=args2))
         res = tc.run_shards(work, "TunerTrace", jobs, timeout=6000)
         for m in res.mm:
